@@ -49,6 +49,16 @@ def work_init(init):
     os.makedirs(TMP)
     os.makedirs(OUTSIDE)
     os.makedirs(CWD)
+    # copies of two real host files (the repository's README / CHANGELOG) for hostile names to point at: the names used to point at the
+    # files in the repository itself, and a changed archive reader that writes members out and tidies up after itself deleted them there
+    from vlib import core as _core
+    os.makedirs(os.path.join(OUTSIDE, "hostdocs"))
+    for nm in ("README.md", "CHANGELOG.md"):
+        try:
+            shutil.copyfile(_core.REPO / nm, os.path.join(OUTSIDE, "hostdocs", nm))
+        except OSError:
+            open(os.path.join(OUTSIDE, "hostdocs", nm), "w").write("host document stand-in, thirty characters and more in one line\n")
+    _host_marks()       # read before any case can touch the copies
     os.environ["TMPDIR"] = TMP
     tempfile.tempdir = TMP
     os.chdir(CWD)       # a member name used relative to the current directory lands in the watched area, not in the framework's tree
@@ -76,8 +86,8 @@ def hostile_names(rng, canaries):
     c0 = cpaths[0]
     rel_up = os.path.relpath(c0, TMP)
     names = [
-        c0, cpaths[1], "/etc/hostname.txt", "/repo/README.md", "/repo/CHANGELOG.md",
-        "../" * 3 + "outside/canary.txt", "../outside/canary.txt", rel_up, "../../../../../../../../repo/README.md",
+        c0, cpaths[1], "/etc/hostname.txt", OUTSIDE + "/hostdocs/README.md", OUTSIDE + "/hostdocs/CHANGELOG.md",
+        "../" * 3 + "outside/canary.txt", "../outside/canary.txt", rel_up, "../" * 8 + OUTSIDE.lstrip("/") + "/hostdocs/README.md",
         "a/../../outside/canary.txt", "a/b/../../../outside/sub/canary.md", "..\\..\\outside\\canary.txt", "a\\..\\..\\x.txt",
         "C:\\Windows\\x.txt", "C:x.txt", "\\\\server\\share\\x.txt", "//double/slash.txt", "./dot.txt", "a//b.txt", "a/./b.txt",
         "x" * 300 + ".txt", "d/" * 60 + "deep.txt", "ünï/文書 😀.txt", "trailing./x.txt", " lead.txt", "tab\tname.txt", "new\nline.txt",
@@ -169,7 +179,8 @@ def _add_phantoms(rng, members, info, canaries):
         forms += [("", f"./../../{r_}"), ("", f".//../../{r_}"), ("", f"./{chain}{ab.lstrip('/')}"), ("", f"./././../../{r_}"),
                   ("sub", f"sub/../../../{r_}"), ("sub/x", f"sub/x/../../../../{r_}"), ("a", f"a/./../../../{r_}"), ("ünï", f"ünï/../{chain}{ab.lstrip('/')}"),
                   ("sub", f"./sub/../../../{r_}"), ("", f"../../{r_}"), ("", ab), ("", f"nodir/../../../{r_}")]
-    forms += [("", f"./{chain}repo/README.md"), ("sub", f"sub/{chain}repo/CHANGELOG.md"), ("", f"./{chain}repo/CHANGELOG.md")]
+    hd = OUTSIDE.lstrip("/") + "/hostdocs"
+    forms += [("", f"./{chain}{hd}/README.md"), ("sub", f"sub/{chain}{hd}/CHANGELOG.md"), ("", f"./{chain}{hd}/CHANGELOG.md")]
     for need, name in rng.sample(forms, rng.randint(1, 3)):
         if need and not any(m["name"] == helpers[need] for m in members):
             members.insert(rng.randint(0, len(members)), {"name": helpers[need], "data": b"qh00001z helper member\n", "type": "file"})
@@ -634,8 +645,8 @@ def _host_marks():
     global _MARKS
     if _MARKS is None:
         _MARKS = []
-        from vlib import core
-        for p in (core.REPO / "README.md", core.REPO / "CHANGELOG.md"):
+        import pathlib
+        for p in (pathlib.Path(OUTSIDE, "hostdocs", "README.md"), pathlib.Path(OUTSIDE, "hostdocs", "CHANGELOG.md")):
             try:
                 lines = [ln.strip() for ln in p.read_text(errors="replace").splitlines() if len(ln.strip()) > 30]
                 _MARKS += lines[:3]
